@@ -14,6 +14,11 @@ Section Sched.
   Variable create : bool -> string -> V.
   Variable maxc : Z.
   Variable star : bool.            (* PATH_STAR is configuration: fixed while calls are running *)
+  (* the two memos of glom follow the same protocol up to two details:
+       Path.from_text          tests len(cache) before storing, stores every created value;
+       registry.get_handler    has no length test, and does not store a failed lookup (it raises instead) *)
+  Variable lencheck : bool.
+  Variable storable : V -> bool.
 
   Inductive tstate :=
   | TRun (p : @prog V A)                       (* about to run p *)
@@ -33,7 +38,11 @@ Section Sched.
     match ts with
     | TRun (Ret a) => (TDone a, c)
     | TRun (Ask text k) =>
-        match str_assoc text (sel star c) with Some _ => (TRead text k, c) | None => (TMiss text k, c) end
+        match str_assoc text (sel star c) with
+        | Some _ => (TRead text k, c)
+        | None => if storable (create star text)
+                  then (if lencheck then TMiss text k else TStore text k, c)
+                  else (TRun (k (create star text)), c) end
     | TMiss text k =>
         if path_cache_full (Z.of_nat (List.length (sel star c))) maxc then (TRun (k (create star text)), c)
         else (TStore text k, c)
